@@ -11,6 +11,8 @@ mod restore;
 pub mod state;
 mod tako_events;
 pub mod worker;
+#[cfg(feature = "verif")]
+pub mod verif;
 
 #[derive(Clone)]
 pub struct Senders {
